@@ -1344,3 +1344,51 @@ def inline_new_helpers(body, src, known_names, rules_log):
         body = "".join(x.text for x in toks[:start]) + rep + "".join(x.text for x in toks[close + 1:])
         rules_log.append(("R26", f"call of the new private helper `{nm}` (not in inventory.json) expanded in place with its real body"))
     raise ExtractError("R26 refused: too many helper expansions")
+
+
+def rebind_locals(text, binds, fn_name, rules):
+    """R27: `binds` = "name=INIT EXPR;;name2=INIT2": the local introduced by `let [mut] X = INIT EXPR;` is alpha-renamed
+    to `name` (the name the unit's contract / block signature uses) when the source calls it something else.  Renaming
+    a local is behaviour-preserving; it is refused (exit 2) when `name` is already in use or the binding is not found."""
+    for b in binds.split(";;"):
+        name, _, init = b.partition("=")
+        name = name.strip()
+        toks = full_tokens(text)
+        s_idx = [i for i, t in enumerate(toks) if t.kind not in ("ws", "comment")]
+        pat = [t.text for t in sig(tokenize(init))]
+        found = None
+        for a in range(len(s_idx)):
+            if toks[s_idx[a]].text != "let":
+                continue
+            k = a + 1
+            if k < len(s_idx) and toks[s_idx[k]].text == "mut":
+                k += 1
+            if k + 1 + len(pat) >= len(s_idx) or toks[s_idx[k]].kind != "ident" or toks[s_idx[k + 1]].text != "=":
+                continue
+            if all(toks[s_idx[k + 2 + b2]].text == pat[b2] for b2 in range(len(pat))) and toks[s_idx[k + 2 + len(pat)]].text == ";":
+                if found is not None:
+                    raise ExtractError(f"anchor lost: binding `let _ = {init};` occurs more than once in {fn_name}")
+                found = toks[s_idx[k]].text
+        if found is None:
+            raise ExtractError(f"anchor lost: binding `let _ = {init};` in {fn_name}")
+        if found == name:
+            continue
+        sg = [toks[i] for i in s_idx]
+        if any(t.kind == "ident" and t.text == name and not (i > 0 and sg[i - 1].text in (".", "::")) for i, t in enumerate(sg)):
+            raise ExtractError(f"unsupported construct: cannot rename local `{found}` to `{name}` in {fn_name}: the name is in use")
+        out = []
+        prev = None
+        for i, t in enumerate(toks):
+            if t.kind == "ident" and t.text == found and (prev is None or prev.text not in (".", "::")):
+                nxt = next((x for x in toks[i + 1:] if x.kind not in ("ws", "comment")), None)
+                if nxt is not None and nxt.text == "::":
+                    out.append(t.text)
+                else:
+                    out.append(name)
+            else:
+                out.append(t.text)
+            if t.kind not in ("ws", "comment"):
+                prev = t
+        text = "".join(out)
+        rules.append(("R27", f"local `{found}` alpha-renamed to `{name}` (the name the contract uses for `{init}`)"))
+    return text
